@@ -33,7 +33,7 @@ RULE = (
     "battery: public functions x in-domain arguments (argument hashes, repeat-call equality); non-trivial = every history"
 )
 BOUNDS = {
-    "quick": "16 solver cells x 84 histories (4+16+64); battery of ~60 public calls x 2 repeats; 2 import styles",
+    "quick": "21 solver cells (incl. 5 tight-budget cells mixing converging and non-converging problems) x 84 histories (4+16+64); battery of ~60 public calls x 2 repeats; 2 import styles",
     "thorough": "pool of 5 problems, depth 3 (155 histories per cell)",
 }
 WALL_BUDGET = {"quick": 600, "thorough": 3000}
@@ -116,16 +116,29 @@ def cells():
     for pr in (0, 2):
         out.append({"cls": "CGNEQSolver", "kw": {"tol": 1e-10, "max_iter": 30, "preconditioner_rank": pr}, "pool": "tall", "seeded": True})
     out.append({"cls": "DeepLinearNewtonSchulz", "kw": {"max_iter": 2, "tol": 1e-9}, "pool": "deep"})
+    # tight budgets: the pool then mixes problems that converge with problems that exhaust the budget,
+    # so that a flag / counter remembered from an earlier call becomes visible
+    out.append({"cls": "CGNEQSolver", "kw": {"tol": 1e-9, "max_iter": 2, "preconditioner_rank": 0}, "pool": "tall", "seeded": True})
+    out.append({"cls": "RandomizedSketchProjectPseudoinverse", "kw": {"block_size": 2, "max_iter": 2, "tol": 1e-8, "test_sketch_size": 4, "column_solver": "qr"}, "pool": "fullrank", "seeded": True})
+    out.append({"cls": "HybridRSPNewtonSchulz", "kw": {"r": 2, "p": 2, "T": 1, "tol": 1e-8, "max_iter": 2}, "pool": "tall", "seeded": True})
+    out.append({"cls": "NewtonSchulzPseudoinverse", "kw": {"gamma": 1.0, "max_iter": 6, "tol": 1e-3, "compute_residuals": True}, "pool": "any"})
+    out.append({"cls": "QGMRESSolver", "kw": {"tol": 1e-1, "max_iter": 1, "preconditioner": None}, "pool": "sys"})
     for i, c in enumerate(out):
         c["id"] = i
-        c["name"] = c["cls"] + "(" + ",".join(f"{k}={v}" for k, v in c["kw"].items() if k in ("max_iter", "preconditioner", "compute_residuals", "block_size", "column_solver", "preconditioner_rank")) + ")"
+        c["name"] = c["cls"] + "(" + ",".join(f"{k}={v}" for k, v in c["kw"].items() if k in ("max_iter", "preconditioner", "compute_residuals", "block_size", "column_solver", "preconditioner_rank", "tol", "T")) + ")"
     return out
 
 
 def problems(pool, tier):
     if pool == "sys":
         ns = [2, 5, 3, 4] + ([1] if tier == "thorough" else [])
-        return [("solve", (gmat(n, n, 1), gmat(n, 1, 2))) for n in ns]
+        ps = [("solve", (gmat(n, n, 1), gmat(n, 1, 2))) for n in ns]
+        # an exactly singular system (zero column): the LU preconditioner hits a zero pivot and falls back;
+        # whatever the call does, a reused solver must do the same as a fresh one before and after it
+        S3 = gmat(3, 3, 1)
+        S3[:, 1] = 0.0
+        ps.insert(1, ("solve", (S3, gmat(3, 1, 2))))
+        return ps
     if pool == "any":
         ps = [("compute", (gmat(2, 2, 3),)), ("compute", (gmat(4, 4, 3, rank=2),)), ("compute", (gmat(3, 2, 3),)), ("compute", (gmat(2, 4, 3),))]
         return ps + ([("compute", (gmat(1, 3, 3),))] if tier == "thorough" else [])
@@ -172,14 +185,15 @@ def cases(tier, seed):
     global _REF
     cs = cells()
     npool = 4 if tier == "quick" else 5
-    jobs = [(c, pi, tier) for c in cs for pi in range(npool)]
+    npools = {c["id"]: npool + (1 if c["pool"] == "sys" else 0) for c in cs}
+    jobs = [(c, pi, tier) for c in cs for pi in range(npools[c["id"]])]
     ctx = mp.get_context("fork")
     with ctx.Pool(min(16, len(jobs)), maxtasksperchild=1) as pool:
         _REF = dict(pool.map(_reference, jobs, chunksize=1))
     out = []
     for c in cs:
         for L in (1, 2, 3):
-            for h in itertools.product(range(npool), repeat=L):
+            for h in itertools.product(range(npools[c["id"]]), repeat=L):
                 out.append({"key": f"hist/{c['name']}/{''.join(map(str, h))}", "grp": "hist", "cell": c["id"], "hist": list(h), "tier": tier})
     out.append({"key": "battery/flat-vs-package", "grp": "styles"})
     out.append({"key": "battery/arguments-and-repeatability", "grp": "battery"})
@@ -264,6 +278,22 @@ def battery(lib):
         ("generate_random_unitary_matrix", lib.data_gen.generate_random_unitary_matrix, (3,), True),
     ]
     return B
+
+
+SCALE_BLIND = {"ishermitian", "build_psf_gaussian", "build_psf_motion", "create_test_matrix", "generate_random_unitary_matrix"}
+
+
+def alt_data(name, X):
+    """different in-domain data of the same shape/dtype/structure (Hermitian, triangular, ... preserved)."""
+    if X.dtype == np.quaternion:
+        Y = X * 1.5
+        Y[(0,) * Y.ndim] = Y[(0,) * Y.ndim] + 2.0
+        if name in ("rank", "quat_null_space") and Y.ndim == 2 and Y.shape[0] >= 2:
+            Y[:, -1] = Y[:, 0] * 2.0  # changes the rank, too
+        return Y
+    Y = X * 1.5
+    Y.flat[0] = Y.flat[0] + 0.25
+    return Y
 
 
 def arg_hash(a):
@@ -374,6 +404,27 @@ def run_case(case, seed):
                 fails.append(fail("argument_mutated", f"{name} modified an argument", **tags))
             if not ok2 or canon_plain(r1) != canon_plain(r2):
                 fails.append(fail("repeat_call_differs", f"{name}: two identical calls (same global seed) returned different values", **tags))
+            # aliased input: overwrite the first array argument IN PLACE with different in-domain data and call
+            # again with the same object; the result must equal the result on a fresh copy of the new data
+            if isinstance(args[0], np.ndarray) and args[0].size and name not in ("real_contract",):
+                X = args[0]
+                orig = X.copy()
+                alt = alt_data(name, orig)
+                fresh_args = (alt.copy(),) + tuple(args[1:])
+                c1 = canon_plain(r1) if ok1 else None  # results may be views of the argument: canonicalise before touching it
+                # the in-place call comes directly after the calls on the old contents (nothing in between)
+                X[...] = alt
+                np.random.seed(777)
+                oki, ri = call(fn, *args)
+                ci = canon_plain(ri) if oki else None
+                X[...] = orig
+                np.random.seed(777)
+                okf, rf = call(fn, *fresh_args)
+                evals += 2
+                if okf != oki or (okf and canon_plain(rf) != ci):
+                    fails.append(fail("stale_result_after_inplace_update", f"{name}: after overwriting the argument in place the call returns a different value than on a fresh copy of the same data", **tags))
+                elif okf and ok1 and canon_plain(rf) == c1 and name not in SCALE_BLIND:
+                    fails.append(fail("battery_alt_not_discriminating", f"{name}: alternate data gives the same result (check design)", **tags))
             if rnd:
                 np.random.seed(778)
                 ok3, r3 = call(fn, *args)
